@@ -207,4 +207,116 @@ else:
 if x2n['Prepared'] == 0 or x2n['Aborting'] == 0:
     ck.inconclusive.append(f'vacuous: X2 reached Prepared on {x2n["Prepared"]} paths and Aborting on {x2n["Aborting"]}')
 ck.notes.append(f'X2: {x2n}')
-ck.functions += ['DistributedTxCoordinator::record_vote', 'DistributedTxCoordinator::commit', 'DistributedTxCoordinator::abort', 'DistributedTxCoordinator::log_wal_entry', 'TxRecoveryState::from_wal']
+# ------------------------------------------------------------------ X3: recover_from_wal rebuilds the pending table the log describes
+# A fresh coordinator over a log file (real TxWal) runs the real recover_from_wal (from_wal + restore_tx + orphan release):
+#   history H1 = begin, Yes vote, Prepared                      -> pending holds the transaction, phase Prepared, with its vote and
+#                                                                   handle; commit() on the recovered coordinator then succeeds
+#   history H2 = H1 + Committing + TxComplete(Committed|Aborted) -> pending is empty (a completed transaction is never resurrected)
+#                                                                   and its Yes-handle is released as an orphan
+#   every byte-cut of the last record of H1                      -> the transaction is not pending (its Prepared record is not whole)
+ck.declare('X3_recovered_pending_table', 'recover_from_wal on logs H1 / H2 (ids, shard, handle, outcome symbolic) and on H1 cut at every byte of its last record',
+           'Prepared-and-undecided => pending with phase Prepared, the logged vote and handle, and commit() succeeds; completed => not pending, handle released; Prepared record torn => not pending')
+exd.extra_models['DeltaVector::zero'] = lambda c: Struct('DeltaVector', {}, lazy=c.st.fresh_name('dz'))
+exd.extra_models['consensus::DeltaVector::zero'] = exd.extra_models['DeltaVector::zero']
+for nm_ in ('generate_tx_id', 'distributed_tx::generate_tx_id'):
+    exd.extra_models[nm_] = lambda c: Int(z3.BitVec(c.st.fresh_name('new_tx_id'), 64), False)      # clock/counter based id: arbitrary
+x3 = 0
+
+
+def x3_coordinator(st):
+    walobj = st.roots['wal'].load(st)
+    co = Struct('DistributedTxCoordinator', {
+        F13('DistributedTxCoordinator', 'pending'): Struct('RwLock', {'data': Cell(val=Map('u64', 'DistributedTransaction', [], []))}),
+        F13('DistributedTxCoordinator', 'wal'): _some(Struct('RwLock', {'data': Cell(val=walobj)}), 'std::option::Option<RwLock<TxWal>>'),
+    }, lazy='CO')
+    st.roots['co'] = co
+    return co
+
+
+for hist in ('H1', 'H2'):
+    st = exd.new_state()
+    st.env['codec_len'] = 2
+    st.env['crc_nonzero'] = True
+    txid, shard, handle = (z3.BitVec(n_, 64) for n_ in ('txid', 'shard', 'handle'))
+    opened = scd.open(st, 'tx log (X3)')
+    if len(opened) != 1 or opened[0][1] is None:
+        ck.inconclusive.append('X3: initial open failed')
+        continue
+    st = opened[0][0]
+    recs = [E('TxBegin', Int(txid, False), Seq('usize', [Int(shard, False)])),
+            E('PrepareVote', Int(txid, False), Int(shard, False), Enum('PrepareVoteKind', 0, {('Yes', 0): Int(handle, False)}, variant='Yes')),
+            E('PhaseChange', Int(txid, False), Enum('TxPhase', PH['Preparing'], {}), Enum('TxPhase', PH['Prepared'], {}))]
+    if hist == 'H2':
+        recs += [E('PhaseChange', Int(txid, False), Enum('TxPhase', PH['Prepared'], {}), Enum('TxPhase', PH['Committing'], {})),
+                 E('TxComplete', Int(txid, False), outcome('x3_outcome', st))]
+    lens = [len(scd.file(st).data)]
+    okk = True
+    for i, rc in enumerate(recs):
+        outs = [o for o in scd.append(st, rc, f'X3 history record {i}') if o[1] is None]
+        if len(outs) != 1:
+            okk = False
+            break
+        st = outs[0][0]
+        lens.append(len(scd.file(st).data))
+    if not okk:
+        ck.inconclusive.append('X3: could not write the history')
+        continue
+    cuts = [lens[-1]] if hist == 'H2' else list(range(lens[-2], lens[-1] + 1))
+    for cut in cuts:
+        whole = cut == lens[-1]
+        crashed = scd.crash(st, cut)
+        for (s1, wp, e1) in scd.open(crashed, f'X3 reopen {hist} cut={cut - lens[-2]}'):
+            wit0 = {'recover': hist, 'cut_offset': cut - lens[-2], 'frame_len': lens[-1] - lens[-2]}
+            if wp is None:
+                ck.require(exd, 'X3_recovered_pending_table', s1.pc, None, z3.BoolVal(False), lambda m, w=dict(wit0, outcome=e1): w, lambda m, w: 'recover-reopen')
+                continue
+            co = x3_coordinator(s1)
+            ov_rel = lambda c: (c.st.notes.append(('orphan_release', c.args[1].v)), UNIT)[1]
+            exd.extra_models['LockManager::release_by_handle_with_wait_cleanup'] = ov_rel
+            try:
+                rr = scd.run(s1, 'DistributedTxCoordinator::recover_from_wal', [ref(co)])
+            finally:
+                exd.extra_models['LockManager::release_by_handle_with_wait_cleanup'] = lambda c: UNIT
+            ck.note_path_problem(rr, f'X3 recover_from_wal {hist}')
+            for r in rr:
+                if r.status == 'panic' or (r.status == 'return' and r.retval.variant != 'Ok'):
+                    ck.require(exd, 'X3_recovered_pending_table', r.pc, None, z3.BoolVal(False), lambda m, w=dict(wit0, outcome=str(r.status)): w, lambda m, w: 'recover-failed')
+                    continue
+                if r.status != 'return':
+                    continue
+                f = r.st
+                pend = f.roots['co'].fields[F13('DistributedTxCoordinator', 'pending')].fields['data'].val
+                released = [x[1] for x in f.notes if x[0] == 'orphan_release']
+                if hist == 'H2':
+                    concl = z3.And(z3.BoolVal(len(pend.keys) == 0), z3.Or([h_ == handle for h_ in released] + [z3.BoolVal(False)]))
+                    ck.require(exd, 'X3_recovered_pending_table', r.pc, None, concl, lambda m, w=dict(wit0, pending=len(pend.keys), released=len(released)): w, lambda m, w: 'completed-tx-resurrected')
+                    x3 += 1
+                    continue
+                if not whole:
+                    ck.require(exd, 'X3_recovered_pending_table', r.pc, None, z3.BoolVal(len(pend.keys) == 0), lambda m, w=dict(wit0, pending=len(pend.keys)): w, lambda m, w: 'unprepared-tx-pending')
+                    x3 += 1
+                    continue
+                cs = [z3.BoolVal(len(pend.keys) == 1)]
+                if len(pend.keys) == 1:
+                    t = pend.vals[0]
+                    ph = t.load(F13('DistributedTransaction', 'phase'), None, f)
+                    phd = ph.disc if not isinstance(ph.disc, int) else z3.BitVecVal(ph.disc, 64)
+                    votes = t.load(F13('DistributedTransaction', 'votes'), None, f)
+                    cs += [pend.keys[0].v == txid, t.load(F13('DistributedTransaction', 'tx_id'), 'u64', f).v == txid, phd == PH['Prepared'], z3.BoolVal(len(votes.keys) == 1)]
+                    if len(votes.keys) == 1:
+                        v0 = votes.load(0, None, f)
+                        cs += [votes.keys[0].v == shard, z3.BoolVal(v0.variant == 'Yes')]
+                        if v0.variant == 'Yes':
+                            cs.append(v0.fields[('Yes', 0)].v == handle)
+                ck.require(exd, 'X3_recovered_pending_table', r.pc, None, z3.And(cs), lambda m, w=dict(wit0, pending=len(pend.keys)): w, lambda m, w: 'prepared-tx-not-restored')
+                x3 += 1
+                # ... and it can be driven to completion
+                rc_ = scd.run(f, 'DistributedTxCoordinator::commit', [ref(f.roots['co']), Int(txid, False)])
+                ck.note_path_problem(rc_, 'X3 commit after recovery')
+                for r2 in rc_:
+                    if r2.status != 'return':
+                        continue
+                    ck.require(exd, 'X3_recovered_pending_table', r2.pc, None, z3.BoolVal(r2.retval.variant == 'Ok'), lambda m, w=dict(wit0, stage='commit after recovery'): w, lambda m, w: 'recovered-tx-cannot-commit')
+if x3 == 0:
+    ck.inconclusive.append('vacuous: X3 never instantiated')
+ck.functions += ['DistributedTxCoordinator::record_vote', 'DistributedTxCoordinator::commit', 'DistributedTxCoordinator::abort', 'DistributedTxCoordinator::log_wal_entry', 'TxRecoveryState::from_wal', 'DistributedTxCoordinator::recover_from_wal']
